@@ -118,6 +118,9 @@ def lifetime_descs(draw, U, classes=None, well_conditioned=False):
             el = st.floats(0.15 * mean_dt, 2.5 * mean_dt)
         else:
             el = st.floats(0.6, 4.0)
+        if cls == "FixedLifetime" and name == "mean" and draw(st.booleans()):
+            # lifetimes that coincide exactly with possible ages (integers and half-integers of the grid spacing)
+            el = st.sampled_from([0.0, 0.5, 1.0, 1.5, 2.0, 2.5, 3.0, 4.0, 5.0, 7.5, 10.0])
         kind = draw(st.sampled_from(["scalar", "scalar", "array", "array", "cohort", "drift"]))
         if kind == "scalar":
             prms[name] = {"kind": "scalar", "v": draw(el)}
@@ -191,6 +194,13 @@ def stock_configs(draw, classes=("simple", "idsm", "sdsm_manual", "sdsm_lapack")
             cfg["reprm"] = draw(lifetime_descs(U, classes=(cfg["lt"]["cls"],), well_conditioned=True))["prms"]
     # flows in any unit: tiny and huge magnitudes are as legitimate as ordinary ones
     cfg["scale"] = draw(st.sampled_from([1.0, 1.0, 1.0, 1e-9, 1e-4, 1e6]))
+    if draw(st.integers(0, 5)) == 0:
+        # counts: whole numbers stored with an integer dtype (legitimate driver arrays)
+        cfg["int_driver"] = True
+        cfg["scale"] = 1.0
+        cfg["driver"] = [float(round(v)) for v in cfg["driver"]]
+        if "outflow" in cfg:
+            cfg["outflow"] = [float(round(v)) for v in cfg["outflow"]]
     return cfg
 
 
@@ -203,6 +213,8 @@ def driver_array(cfg, vals=None, cls=None):
     letters = gen.uletters(U)
     shape = tuple(len(d["items"]) for d in U["dims"])
     v = np.array(vals if vals is not None else driver_values(cfg), dtype=float).reshape(shape)
+    if cfg.get("int_driver") and np.all(v == np.round(v)) and np.all(np.abs(v) < 2**40):
+        v = v.astype(np.int64)
     return (cls or fd.StockArray)(dims=build.dimset(U, letters), values=v)
 
 
